@@ -143,7 +143,8 @@ pub fn run() -> i32 {
     r.evaluations += t.evals; r.nontrivial += t.nt;
     for v in t.viols { r.viol(v); }
     // (C) example projects
-    for (label, root) in [("frozen copy", "/verif/fixtures/ie_project"), ("live copy", "/repo/examples/indo-european")] {
+    let frozen = format!("{}/fixtures/ie_project", crate::util::root());
+    for (label, root) in [("frozen copy", frozen.as_str()), ("live copy", "/repo/examples/indo-european")] {
         for (pname, proj) in [("germanic", project_groups(root)), ("indo-iranian", project_groups_ii(root))] {
             let Some((groups, words, into)) = proj else { r.machinery_errors.push(format!("example project {} not readable at {}", pname, root)); continue };
             let jobs = words.len() * (groups.len() - 1);
